@@ -1344,4 +1344,203 @@ def _apply_single_plan_(plan, lay, out, size, SLICE_ALL):
     return None
 
 
-RULES = [rule_singleplan, rule_prims, rule_diag, rule_dedup, rule_plandep, rule_layout, rule_perm, rule_single, rule_axes, rule_memo, rule_exec, rule_pure]
+class _PlanErr(Exception):
+    pass
+
+
+def _apply_pair_plan(plan, a_term, b_term, out, size):
+    """Application of a pairwise plan to *abstract* operands: an operand is a list of axes, an axis the tuple of the
+    (non-trivial) index letters fused into it.  Follows `_do_contraction_via_bmm` stage by stage with numpy's rules
+    for transpose / reshape / matmul / broadcasting multiply; returns None if the result's axes are the output's."""
+    if not (isinstance(plan, tuple) and len(plan) == 7):
+        return "the plan is not a 7-tuple"
+    eq_a, eq_b, sh_a, sh_b, sh_ab, perm_ab, pure = plan
+
+    def axes_of(letters):
+        return [(L,) if size[L] > 1 else () for L in letters]
+
+    def pre(eq_x, term, other):
+        if eq_x is None:
+            return axes_of(term)
+        if isinstance(eq_x, tuple):
+            if sorted(eq_x) != list(range(len(term))):
+                raise _PlanErr(f"{eq_x} is not a permutation of the axes of `{term}`")
+            return axes_of([term[i] for i in eq_x])
+        lhs, rhs = eq_x.split("->")
+        if lhs != term:
+            raise _PlanErr(f"the preparing equation `{eq_x}` does not start from the operand's own term `{term}`")
+        if len(set(rhs)) != len(rhs) or not set(rhs) <= set(lhs):
+            raise _PlanErr(f"the preparing equation `{eq_x}` is not a reduction of `{term}`")
+        for L in set(lhs) - set(rhs):
+            if size[L] > 1 and (L in other or L in out):
+                raise _PlanErr(f"`{eq_x}` sums `{L}` on one operand alone although the other operand or the output carries it")
+        return axes_of(rhs)
+
+    def reshape(axes, shape, what):
+        if shape is None:
+            return axes
+        seq = [L for ax in axes for L in ax]
+        new, i = [], 0
+        for t in shape:
+            grp, prod = [], 1
+            while prod < t:
+                if i >= len(seq):
+                    raise _PlanErr(f"{what}: shape {tuple(shape)} does not fit the operand's {len(seq)} non-trivial axes")
+                grp.append(seq[i])
+                prod *= size[seq[i]]
+                i += 1
+            if prod != t:
+                raise _PlanErr(f"{what}: shape {tuple(shape)} splits an index")
+            new.append(tuple(grp))
+        if i != len(seq):
+            raise _PlanErr(f"{what}: shape {tuple(shape)} has fewer elements than the operand")
+        return new
+
+    def uniq(axes, what):
+        ls = [L for ax in axes for L in ax]
+        if len(set(ls)) != len(ls):
+            raise _PlanErr(f"{what} still carries a repeated index on two axes ({ls})")
+
+    def bcast(x, y, what):
+        n = max(len(x), len(y))
+        x = [()] * (n - len(x)) + list(x)
+        y = [()] * (n - len(y)) + list(y)
+        outp = []
+        for u, v in zip(x, y):
+            if u == v or not v:
+                outp.append(u)
+            elif not u:
+                outp.append(v)
+            else:
+                raise _PlanErr(f"{what}: axes {u} and {v} are paired")
+        return outp
+    try:
+        A = pre(eq_a, a_term, b_term)
+        B = pre(eq_b, b_term, a_term)
+        uniq(A, "the left operand")
+        uniq(B, "the right operand")
+        A = reshape(A, sh_a, "left reshape")
+        B = reshape(B, sh_b, "right reshape")
+        if pure:
+            AB = bcast(A, B, "multiply")
+        else:
+            if not A or not B:
+                raise _PlanErr("matmul of a rank-0 operand")
+            da = len(A) == 1
+            db = len(B) == 1
+            A2 = [()] + A if da else A
+            B2 = B + [()] if db else B
+            if A2[-1] != B2[-2]:
+                raise _PlanErr(f"matmul pairs the axes {A2[-1]} and {B2[-2]}")
+            for L in A2[-1]:
+                if L in out:
+                    raise _PlanErr(f"`{L}` is contracted although the output keeps it")
+            AB = bcast(A2[:-2], B2[:-2], "matmul batch") + ([] if da else [A2[-2]]) + ([] if db else [B2[-1]])
+        AB = reshape(AB, sh_ab, "output reshape")
+        if perm_ab is not None:
+            if sorted(perm_ab) != list(range(len(AB))):
+                raise _PlanErr(f"{tuple(perm_ab)} is not a permutation of the {len(AB)} axes produced")
+            AB = [AB[i] for i in perm_ab]
+    except _PlanErr as e:
+        return str(e)
+    except (TypeError, IndexError, KeyError, ValueError, AttributeError) as e:
+        return f"the plan is malformed ({type(e).__name__}: {e})"
+    want = axes_of(out)
+    if AB != want:
+        return f"the plan produces the axes {AB}, the output `{out}` is {want}"
+    return None
+
+
+def rule_pairplan(ctx):
+    """(sensitivity map, round 8: the suite never passes a size-1 dimension, a repeated index or an index summed on one
+    side to this planner) The pairwise planner is a pure function of (equation, shapes).  Its source — with the
+    pure-multiplication planner it delegates to — is evaluated by the engine's mini-evaluator on every two-operand
+    equation over three symbols with operand rank up to three, several outputs each, under size assignments with
+    and without a size-1 index; the returned plan is then *applied to abstract operands* (axes as tuples of fused index
+    letters) stage by stage as the executor does, with numpy's rules for transpose, reshape, matmul and broadcasting.
+    The axes produced must be the output's; no index is summed on one operand alone unless nothing else carries
+    it; matmul pairs identical groups; no repeated index survives the preparation."""
+    import itertools
+
+    from ..engine.minieval import Mini, NoEval, Raised
+
+    r = RuleResult("C11-PAIRPLAN", "the pairwise plan, applied to abstract operands, yields the output", 1)
+    m = ctx.p.module(C.CONTRACT)
+    f = ctx.p.func(C.CONTRACT, PLAN)
+    helpers = {g.name: g.node for g in m.all_funcs if g.cls is None and g.name in
+               ("_sanitize_equation", "_parse_eq_to_pure_multiplication", PLAN)}
+    C.require(len(helpers) == 3, "pairwise planners not found")
+    k = ctx.key(f, "C11-PAIRPLAN")
+    terms = [t for rk in range(0, 4) for t in itertools.product("abc", repeat=rk)]
+    assignments = [{"a": 2, "b": 3, "c": 5}, {"a": 2, "b": 1, "c": 3}, {"a": 1, "b": 2, "c": 1}]
+    step = 1 if ctx.tier == "thorough" else 8
+    n_eq = 0
+    bad = None
+    idx = 0
+    try:
+        for ta in terms:
+            for tb in terms:
+                union = sorted(set(ta) | set(tb))
+                once = [L for L in union if not (L in ta and L in tb)]
+                outs = {tuple(union), tuple(reversed(union)), tuple(once), tuple(reversed(once)), (), tuple(L for L in union if L in ta and L in tb)}
+                for out in sorted(outs):
+                    idx += 1
+                    if idx % step:
+                        continue
+                    for size in assignments:
+                        eq = "".join(ta) + "," + "".join(tb) + "->" + "".join(out)
+                        sa, sb = tuple(size[c] for c in ta), tuple(size[c] for c in tb)
+                        n_eq += 1
+                        try:
+                            plan = Mini(helpers, budget=60000).call(f.node, [eq, sa, sb])
+                        except Raised as e:
+                            bad = bad or (eq, size, f"the planner raises ({e.text})")
+                            continue
+                        except NoEval:
+                            raise
+                        except Exception as e:
+                            bad = bad or (eq, size, f"the planner raises ({type(e).__name__}: {e})")
+                            continue
+                        why = _apply_pair_plan(plan, "".join(ta), "".join(tb), "".join(out), size)
+                        if why and bad is None:
+                            bad = (eq, size, why)
+        # four symbols (a size-1 index next to one kept index per operand and a contracted one needs four)
+        terms3 = [t for rk in range(1, 4) for t in itertools.product("abcd", repeat=rk)]
+        terms2 = [t for rk in range(1, 3) for t in itertools.product("abcd", repeat=rk)]
+        assignments4 = [{"a": 1, "b": 2, "c": 3, "d": 5}, {"a": 2, "b": 3, "c": 1, "d": 5}, {"a": 2, "b": 3, "c": 5, "d": 1}, {"a": 2, "b": 3, "c": 5, "d": 7}]
+        for ta in terms3:
+            for tb in terms2:
+                union = sorted(set(ta) | set(tb))
+                if len(union) != 4:
+                    continue
+                once = [L for L in union if not (L in ta and L in tb)]
+                for out in sorted({tuple(union), tuple(once), tuple(reversed(once))}):
+                    idx += 1
+                    if idx % step:
+                        continue
+                    for size in assignments4:
+                        eq = "".join(ta) + "," + "".join(tb) + "->" + "".join(out)
+                        n_eq += 1
+                        try:
+                            plan = Mini(helpers, budget=60000).call(f.node, [eq, tuple(size[c] for c in ta), tuple(size[c] for c in tb)])
+                        except Raised as e:
+                            bad = bad or (eq, size, f"the planner raises ({e.text})")
+                            continue
+                        except NoEval:
+                            raise
+                        except Exception as e:
+                            bad = bad or (eq, size, f"the planner raises ({type(e).__name__}: {e})")
+                            continue
+                        why = _apply_pair_plan(plan, "".join(ta), "".join(tb), "".join(out), size)
+                        if why and bad is None:
+                            bad = (eq, size, why)
+    except NoEval as e:
+        raise AnalysisError(f"{PLAN}: not evaluable by the mini-evaluator ({e})")
+    if bad:
+        r.violation(k, f.loc, f"for `{bad[0]}` with sizes {bad[1]}: {bad[2]} — the library's pairwise einsum returns another array than the reference")
+    else:
+        r.ok(k, f.loc, f"{n_eq} (equation, sizes) cases: the plan turns the abstract operands into the output's axes")
+    return r
+
+
+RULES = [rule_pairplan, rule_singleplan, rule_prims, rule_diag, rule_dedup, rule_plandep, rule_layout, rule_perm, rule_single, rule_axes, rule_memo, rule_exec, rule_pure]
